@@ -140,7 +140,7 @@ function makeTA(name) {
   const tmp = new real(1);
   const C = class {
     constructor(a, off, len) {
-      if (a instanceof TABuf) { this.buffer = a; this.$off = (off || 0) / (bits / 8); this.length = len === undefined ? (a.data.length - this.$off) : len; }
+      if (a instanceof TABuf) { if (a.elemKind === undefined) a.elemKind = name; else if (a.elemKind !== name) a.aliased = true; this.buffer = a; this.$off = (off || 0) / (bits / 8); this.length = len === undefined ? (a.data.length - this.$off) : len; }
       else if (typeof a === 'number' || a === undefined) { this.buffer = new TABuf(a || 0); this.$off = 0; this.length = a || 0; }
       else if (isSym(a)) { const n = RT.concrete(a); this.buffer = new TABuf(n); this.$off = 0; this.length = n; }
       else { // array-like / iterable
@@ -156,8 +156,8 @@ function makeTA(name) {
     get byteOffset() { return this.$off * (bits / 8); }
     get BYTES_PER_ELEMENT() { return bits / 8; }
     get byteLength() { return this.length * (bits / 8); }
-    $get(i) { return (i >= 0 && i < this.length && Number.isInteger(i)) ? this.buffer.data[this.$off + i] : undefined; }
-    $set(i, v) { if (i >= 0 && i < this.length && Number.isInteger(i)) this.buffer.data[this.$off + i] = C.$coerce(v); return v; }
+    $get(i) { if (this.buffer.aliased) return unsupported('typed arrays of different element types over one ArrayBuffer (bit aliasing is not modelled)'); return (i >= 0 && i < this.length && Number.isInteger(i)) ? this.buffer.data[this.$off + i] : undefined; }
+    $set(i, v) { if (this.buffer.aliased) return unsupported('typed arrays of different element types over one ArrayBuffer (bit aliasing is not modelled)'); if (i >= 0 && i < this.length && Number.isInteger(i)) this.buffer.data[this.$off + i] = C.$coerce(v); return v; }
     $toArray() { return this.buffer.data.slice(this.$off, this.$off + this.length); }
     subarray(a, b) {
       a = RT.concrete(a); b = RT.concrete(b);
@@ -1341,6 +1341,8 @@ function runPath(compiled, prefix, cfg) {
   defg('console', consoleShim); defg('setTimeout', setTimeoutShim); defg('clearTimeout', clearTimeoutShim); defg('Date', DateShim);
   defg('parseInt', shimParseInt); defg('parseFloat', shimParseFloat); defg('isNaN', shimIsNaN); defg('isFinite', shimIsFinite);
   defg('global', sandboxGlobal); defg('globalThis', sandboxGlobal);
+  for (const n of Object.keys(TA_KINDS)) defg(n, RT.TA[n]);      // $global.Float64Array etc. must be the same shims the program sees as globals
+  defg('ArrayBuffer', TABuf);
   const requireShim = name => { throw new Error('module not available: ' + name); };
   const fail = (e, where) => {
     if (e && e.$$abort) {
